@@ -67,7 +67,9 @@ RetVerdict(S, e) ==
       stale == hit /\ ent.st # "absent" /\ co.st = "ok" /\ ent.map = co.map
       D == IF stale THEN Diff(Fresh(ent.c, ent.ts), Fresh(c, e.texts)) ELSE {}
       sameCodeKey == stale /\ KeyOf(CodeDevs, ent.c, ent.ts) = KeyOf(CodeDevs, c, e.texts)
-  IN IF co.st = "timeout" THEN V("RET", "reject", "the cached call does not return")
+  IN IF co.st = "timeout"
+     THEN (IF S.dmg THEN V("RET", "ok", "")      \* no specification was returned: not a wrong codec (counted by the harness)
+           ELSE V("RET", "reject", "the cached call does not return although nothing was damaged"))
      ELSE IF co.st = "died" THEN V("RET", "reject", "the cached call died")
      ELSE IF fo.st \notin {"ok", "exc"} THEN V("RET", "machinery", "uncached compile: " \o fo.st)
      ELSE IF OutEq(co, fo) THEN V("RET", "ok", "")
